@@ -24,10 +24,82 @@ type Scratch struct {
 	n    int
 }
 
-func goEnv() []string {
+// The Go build cache.  Every batch of generated programs is a new main package, so a shared GOCACHE grows
+// without bound (126 GB after a day of runs - the disk filled up).  Each vcheck process therefore uses a
+// private cache, initialised by hard-linking a warm base cache (std, go-cmp; built by setup.sh into
+// $VERIF_DIR/bin/gocache-base), and every build of a throw-away package (GoBuildDir / GoCheckDir) uses a
+// further hard-link overlay that is removed right after the build.  CleanupCache removes the private cache.
+var (
+	cacheOnce sync.Once
+	privCache string
+)
+
+func linkCopy(from, to string) error {
+	out, err := exec.Command("cp", "-al", from, to).CombinedOutput()
+	if err != nil {
+		return fmt.Errorf("cp -al %s %s: %v: %s", from, to, err, out)
+	}
+	return nil
+}
+
+func privateCache() string {
+	cacheOnce.Do(func() {
+		base := os.Getenv("VERIF_TMP")
+		if base == "" {
+			base = os.TempDir()
+		}
+		dir, err := os.MkdirTemp(base, "verif-gocache-")
+		if err != nil {
+			return
+		}
+		privCache = filepath.Join(dir, "c")
+		if vd := os.Getenv("VERIF_DIR"); vd != "" {
+			if st, err := os.Stat(filepath.Join(vd, "bin", "gocache-base")); err == nil && st.IsDir() {
+				if linkCopy(filepath.Join(vd, "bin", "gocache-base"), privCache) == nil {
+					return
+				}
+				os.RemoveAll(privCache)
+			}
+		}
+		os.MkdirAll(privCache, 0o755)
+	})
+	return privCache
+}
+
+// CleanupCache removes the process's private build cache (call before exit).
+func CleanupCache() {
+	if privCache != "" {
+		os.RemoveAll(filepath.Dir(privCache))
+	}
+}
+
+func goEnvCache(cache string) []string {
 	env := os.Environ()
 	env = append(env, "GOFLAGS=-mod=mod", "GOPROXY=off", "GOSUMDB=off", "GOTOOLCHAIN=local", "GONOSUMDB=*", "GONOSUMCHECK=1", "GOWORK=off")
+	if cache != "" {
+		env = append(env, "GOCACHE="+cache)
+	}
 	return env
+}
+
+func goEnv() []string { return goEnvCache(privateCache()) }
+
+// GoEnv is the environment for go commands started by checks themselves (C04's recipes).
+func GoEnv() []string { return goEnv() }
+
+// overlayCache makes a throw-away hard-link copy of the private cache next to a throw-away package.
+func overlayCache(dir string) (string, func()) {
+	pc := privateCache()
+	if pc == "" {
+		return "", func() {}
+	}
+	oc := filepath.Join(dir, ".gocache")
+	os.RemoveAll(oc)
+	if linkCopy(pc, oc) != nil {
+		os.RemoveAll(oc)
+		return pc, func() {}
+	}
+	return oc, func() { os.RemoveAll(oc) }
 }
 
 // New copies repo (tracked and untracked sources, minus .git and the ignored
@@ -215,7 +287,9 @@ func GoBuildDir(dir string, extra ...string) (string, error) {
 	args = append(args, ".")
 	cmd := exec.Command("go", args...)
 	cmd.Dir = dir
-	cmd.Env = goEnv()
+	cache, done := overlayCache(dir)
+	defer done()
+	cmd.Env = goEnvCache(cache)
 	b, err := cmd.CombinedOutput()
 	return string(b), err
 }
@@ -224,7 +298,9 @@ func GoBuildDir(dir string, extra ...string) (string, error) {
 func GoCheckDir(dir string) (string, error) {
 	cmd := exec.Command("go", "build", "-gcflags=-e", "-o", os.DevNull, ".")
 	cmd.Dir = dir
-	cmd.Env = goEnv()
+	cache, done := overlayCache(dir)
+	defer done()
+	cmd.Env = goEnvCache(cache)
 	b, err := cmd.CombinedOutput()
 	return string(b), err
 }
